@@ -73,6 +73,12 @@ impl RecKv {
         s.fail_attempt = Some(s.attempts);
     }
 
+    /// the n-th store / remove operation from now fails (1 = the next one)
+    pub fn fail_nth(&self, n: usize) {
+        let mut s = self.0.borrow_mut();
+        s.fail_attempt = Some(s.attempts + n - 1);
+    }
+
     pub fn set_fail_all(&self, on: bool) {
         self.0.borrow_mut().fail_all = on;
     }
